@@ -478,7 +478,7 @@ GenElse ==
   /\ UNCHANGED <<phase, m>>
 
 \* switch: start the next clause (lu marks "a clause is open"); ft: the clause just finished falls through
-CaseLits == {1, 2, 3}
+CaseLits == {7, -3, 1}      \* the initial values of a and b, and a value that never matches
 UsedCases(f) == UNION {{f.done[i].e[j].n : j \in 1..Len(f.done[i].e)} : i \in 1..Len(f.done)}
                 \cup {f.cur[j].n : j \in 1..Len(f.cur)}
 HasDefault(f) == (f.lu /\ f.cur = <<>>) \/ \E i \in 1..Len(f.done) : f.done[i].e = <<>>
@@ -487,7 +487,7 @@ GenCase ==
   /\ \E ft \in (IF Top.lu /\ Has("fallthrough") /\ ~Top.term THEN {FALSE, TRUE} ELSE {FALSE}) :
      \E es \in (IF Top.h.n = 1
                 THEN {<<IntE(n)>> : n \in CaseLits \ UsedCases(Top)}
-                     \cup (IF Has("case2") THEN {<<IntE(n), IntE(n + 3)>> : n \in CaseLits \ UsedCases(Top)} ELSE {})
+                     \cup (IF Has("case2") THEN {<<IntE(n), IntE(n + 10)>> : n \in CaseLits \ UsedCases(Top)} ELSE {})
                 ELSE {<<c>> : c \in CondPool})
                \cup (IF HasDefault(Top) THEN {} ELSE {<<>>}) :
        g' = [g EXCEPT !.left = @ - 1, !.frames[NF] =
@@ -1349,21 +1349,22 @@ Families ==
          FamRec("expr", FExpr, 1, 0, {"m"}, {2}),        FamRec("bits", FBits, 1, 0, {"m"}, {2}),
          FamRec("assign", FAssign, 1, 0, {"m"}, {2}),    FamRec("ctl", FCtl, 2, 2, {"m"}, {1}),
          FamRec("label", FLabel, 3, 3, {"m"}, {1}),      FamRec("layout", FLayout, 2, 2, {"o"}, {1}),
-         FamRec("switch", FSwitch, 3, 1, {"m"}, {1}),    FamRec("slice", FSlice, 2, 1, {"m"}, {5}),
+         FamRec("switch", FSwitch \ {"switchnotag"}, 4, 1, {"m"}, {1}),    FamRec("slice", FSlice, 2, 1, {"m"}, {5}),
          FamRec("map", FMap, 2, 1, {"m"}, {5}),          FamRec("struct", FStruct, 2, 0, {"m"}, {5}),
          FamRec("clos", FClos, 4, 2, {"m"}, {1}),        FamRec("defer", FDefer, 4, 2, {"m"}, {1}),
          FamRec("panic", FPanic, 2, 2, {"m"}, {0}),      FamRec("shadow", FShadow, 2, 1, {"m"}, {1}) }
     [] Tier = "thorough" -> {
-         FamRec("expr", FExpr, 2, 0, {"m"}, {2}),        FamRec("expr2", FExpr2, 1, 0, {"m"}, {2}),
-         FamRec("bits", FBits, 2, 0, {"m"}, {1, 2}),     FamRec("assign", FAssign, 2, 0, {"m"}, {2}),
+         FamRec("expr", FExpr, 1, 0, {"m"}, {2, 3}),     FamRec("expr2", FExpr2, 1, 0, {"m"}, {2}),
+         FamRec("bits", FBits, 1, 0, {"m"}, {1, 2}),     FamRec("assign", FAssign, 2, 0, {"m"}, {2}),
          FamRec("ctl", FCtl \cup {"cond2"}, 3, 2, {"m"}, {1}),
-         FamRec("label", FLabel \cup {"forever"}, 4, 3, {"m"}, {1}),
+         FamRec("label", FLabel \cup {"forever"}, 3, 3, {"m"}, {1}),
          FamRec("layout", FLayout, 3, 2, {"m", "o"}, {1}),
-         FamRec("switch", FSwitch \cup {"case2", "for3", "inc"}, 4, 2, {"m"}, {1}),
-         FamRec("slice", FSlice, 3, 1, {"m"}, {5}),      FamRec("map", FMap, 3, 1, {"m"}, {5}),
-         FamRec("struct", FStruct, 3, 0, {"m"}, {5}),    FamRec("clos", FClos2, 3, 2, {"m"}, {1}),
+         FamRec("switch", FSwitch \cup {"case2"}, 4, 1, {"m"}, {1}),
+         FamRec("slice", FSlice \cup {"if"}, 2, 1, {"m"}, {5}),
+         FamRec("map", FMap, 3, 1, {"m"}, {5}),
+         FamRec("struct", FStruct, 3, 0, {"m"}, {5}),    FamRec("clos", FClos \cup {"func1", "funcv", "ret"}, 4, 2, {"m"}, {1}),
          FamRec("defer", FDefer, 5, 2, {"m"}, {1}),      FamRec("panic", FPanic, 3, 2, {"m"}, {0, 5}),
-         FamRec("shadow", FShadow \cup {"for3", "swap", "arith"}, 3, 2, {"m"}, {1}) }
+         FamRec("shadow", FShadow \cup {"for3"}, 3, 2, {"m"}, {1}) }
     [] Tier = "mut" -> {  \* small programs whose every mutation site (and pair of sites) is enumerated (C06, C07)
          FamRec("assign", {"envint", "envstr", "asg", "opasg", "inc", "swap", "vardecl", "const", "declint", "arith"}, 1, 0, {"m"}, {2}),
          FamRec("slice", FSlice, 1, 1, {"m"}, {5}),      FamRec("map", FMap, 1, 1, {"m"}, {5}),
